@@ -94,11 +94,22 @@ func c03Own(typ, elementWithAttrs, attr string) bool {
 		}
 		return c03URLAttrs[attr]
 	case "TrustedResourceURL":
+		if c03PolicyClass(element, attr) == "URL" {
+			// the reviewed policy gives these attributes (form action, formaction, ...) to safehtml.URL alone: any
+			// other value, a TrustedResourceURL included, goes through the URL sanitizer like an untrusted string
+			return false
+		}
 		return c03URLAttrs[attr]
 	case "Identifier":
 		return c03IDAttrs[attr]
 	}
 	return false
+}
+
+var c03Table, _ = policy.LoadTable()
+
+func c03PolicyClass(element, attr string) string {
+	return c03Table.Class(element, attr)
 }
 
 var c03RelURL = func() map[string]bool {
